@@ -647,9 +647,52 @@ def rule_sibling_trees(chk, prog):
                 (r.bad if bad else r.ok)(inst, fn.loc(loops[0]), bad or "%d child trees" % len(kids))
 
 
+def rule_leaf_bounds(chk, prog):
+    from fractions import Fraction as F
+    from ..microai.interp import Interp, Vec, Oracle, Unsupported, AssertFail, default_obj
+    from .c14 import _enum
+    r = chk.rule("LEAF-TREE-BOUNDS", "Tree::symmetricLayout interpreted whole on a leaf tree (depth 1, root 20 wide and 60 high, root somewhere else, "
+                 "stale bounds) for each requested growth direction and each PREVIOUS growth direction of the tree object: afterwards the tree "
+                 "records the requested direction, its root is at the origin, and its overall and rank-0 bounds are minus / plus half the root's "
+                 "extent ACROSS the requested direction (width for north / south, height for east / west) -- these are the intervals the parent "
+                 "keeps its child trees apart by", floor=8)
+    fn = prog.fn("dialect::Tree::symmetricLayout")
+    dirs = ("EAST", "SOUTH", "WEST", "NORTH")
+    for prev in ("NORTH", "EAST"):
+        for g in dirs:
+            r.count()
+            gd = _enum(prog, "dialect::CardinalDir::" + g)
+            root = default_obj(prog, "dialect::Node", {"m_w": F(20), "m_h": F(60), "m_cx": F(5), "m_cy": F(7)})
+            t = default_obj(prog, "dialect::Tree", {"m_root": root, "m_depth": 1, "m_growthDir": _enum(prog, "dialect::CardinalDir::" + prev),
+                                                    "m_lb": F(-3), "m_ub": F(4), "m_isSymmetric": False,
+                                                    "m_boundsByRank": Vec([Vec([F(-3), F(4)], "double")], "std::vector<double>")})
+            it = Interp(prog, Oracle([]), max_steps=100000)
+            bad = None
+            try:
+                it.call(fn, t, None, None, arg_values=[gd, F(1), F(2), True])
+            except Unsupported as e:
+                raise AnalysisBroken("symmetricLayout on a leaf outside the interpreter subset: %s" % e)
+            except AssertFail as e:
+                bad = "assertion fails: %s" % e
+            if not bad:
+                half = F(10) if g in ("SOUTH", "NORTH") else F(30)
+                rows = t.f["m_boundsByRank"].items
+                got = (F(t.f["m_lb"]), F(t.f["m_ub"]))
+                if got != (-half, half):
+                    bad = "the leaf's bounds are [%s, %s]; half the root's extent across the growth direction is %s" % (got[0], got[1], half)
+                elif len(rows) != 1 or (F(rows[0].items[0]), F(rows[0].items[1])) != (-half, half):
+                    bad = "the leaf's rank-0 bounds are %s, expected [%s, %s]" % ([str(x) for x in rows[0].items] if rows else "missing", -half, half)
+                elif t.f["m_growthDir"] != gd:
+                    bad = "the tree does not record the requested growth direction"
+                elif (F(root.f["m_cx"]), F(root.f["m_cy"])) != (0, 0):
+                    bad = "the root is left at (%s, %s)" % (root.f["m_cx"], root.f["m_cy"])
+            (r.bad if bad else r.ok)("leaf grown %s, previously %s" % (g, prev), fn.where(), bad or "")
+
+
 def run(chk):
     prog = chk.load()
     chk.guard(rule_planarise_coverage, chk, prog)
+    chk.guard(rule_leaf_bounds, chk, prog)
     chk.guard(rule_sibling_trees, chk, prog)
     chk.guard(rule_peel, chk, prog)
     chk.guard(rule_stems, chk, prog)
